@@ -5,6 +5,7 @@ import bisect
 import contextlib
 import io
 import itertools
+import random
 
 from .. import core
 from ..probe import call
@@ -29,7 +30,7 @@ EXHAUSTIVE_SUBDOMAINS = ["every single cut and every pair of cuts of each genera
 ASSUMPTIONS = ["streams start at a frame boundary and end with a sentinel frame, so every judged frame is eventually followed "
                "by a frame start", "end-to-end sessions whose bytes were not all delivered before the receive timeout are "
                "counted as inconclusive sessions, never as violations"]
-REQUIRED = ["e2e_quiet_spells_between_reads", "e2e_empty_parts_in_mid_stream", "batches_read_back_after_later_reads", "beast_single", "beast_double", "beast_random", "beast_cut_inside_escape", "beast_cut_after_frame_start",
+REQUIRED = ["e2e_quiet_spells_between_reads", "two_clients_parsing_in_two_threads", "e2e_empty_parts_in_mid_stream", "batches_read_back_after_later_reads", "beast_single", "beast_double", "beast_random", "beast_cut_inside_escape", "beast_cut_after_frame_start",
             "beast_rssi", "raw_single", "raw_double", "sky_single", "sky_double", "netsource", "netsource_commb_backlog_over_1000", "second_client_alive", "e2e_sessions"]
 # e2e_midframe_boundary (a recv() boundary inside a frame was actually observed) is reported in the evidence but not
 # required: TCP may coalesce pieces on a loaded machine and that must not turn the verdict inconclusive
@@ -440,7 +441,42 @@ def m_e2e(ctx, case):
     ctx.sample({"e2e": kind, "observed_recv_sizes": rec["sizes"][:24], "sent_pieces": [len(p) for p in pieces][:24], "frames": len(exp)})
 
 
-MONITORS = {"stream": m_stream, "netsource": m_netsource, "e2e": m_e2e}
+def m_threads2(ctx, case):
+    """two clients of the same format, each fed its own stream by its own thread at the same time (two receivers in one program,
+    one read loop per thread): each hands on exactly its own frames - a scratch buffer that lives on the class, not on the
+    object, mixes the two streams only when the parsers really overlap"""
+    import sys
+    import threading
+    kind = case["kind"]
+    jobs = []
+    for specs in case["specs2"]:
+        stream, ends, exp, extra = mk_stream(kind, specs)
+        rr = random.Random(len(stream) * 7 + ctx.seed)
+        n = len(stream)
+        jobs.append((stream, exp, extra, [sorted(set(rr.randrange(1, n) for _ in range(rr.choice((6, 12, 30))))) for _ in range(case["rounds"])]))
+    res = [True, True]
+
+    def work(t):
+        stream, exp, extra, cutsets = jobs[t]
+        for cuts in cutsets:
+            if not run_seg(ctx, kind, None, stream, cuts, exp, extra, {"kind": kind, "stream": stream.hex(), "two_threads": True}):
+                res[t] = False
+                return
+    old = sys.getswitchinterval()
+    sys.setswitchinterval(1e-6)
+    try:
+        ths = [threading.Thread(target=work, args=(t,), daemon=True) for t in (0, 1)]
+        for th in ths:
+            th.start()
+        for th in ths:
+            th.join(timeout=120)
+    finally:
+        sys.setswitchinterval(old)
+    ctx.hit("two_clients_parsing_in_two_threads")
+    ctx.nontrivial(("th2", kind, jobs[0][0].hex()[:64]))
+
+
+MONITORS = {"threads2": m_threads2, "stream": m_stream, "netsource": m_netsource, "e2e": m_e2e}
 
 
 # ------------------------------------------------------------------ generators
@@ -558,6 +594,10 @@ def cases(ctx):
     i = 0
     import random as _r
     nstreams = 6 if quick else 60
+    for fmt, mk in (("beast", beast_specs), ("raw", raw_specs), ("sky", sky_specs)):
+        if ctx.mine(i):
+            yield "threads2", {"kind": fmt, "specs2": [mk(rng, 12), mk(rng, 12)], "rounds": 40 if quick else 400}
+        i += 1
     for fmt, mk in (("beast", beast_specs), ("beast_rssi", beast_specs), ("raw", raw_specs), ("sky", sky_specs)):
         for sidx in range(nstreams if fmt != "beast_rssi" else max(1, nstreams // 3)):
             srng = core.Rng((ctx.seed * 1000 + sidx) * 7 + len(fmt))   # identical stream on every shard
